@@ -47,6 +47,9 @@ type Rule struct {
 	// Raw, when set, is the complete action text (no verifReduce call: the reduction does not
 	// appear in the log; only harnesses that compare variants with each other use such grammars)
 	Raw string
+	// Mid is a mid-rule action written before right-hand-side symbol MidPos (1 <= MidPos < len(Rhs))
+	Mid    string
+	MidPos int
 }
 
 type Spec struct {
@@ -336,7 +339,10 @@ func (s *Spec) Render(o RenderOpts) string {
 				sb.WriteString("\n  |")
 			}
 			first = false
-			for _, sym := range r.Rhs {
+			for i, sym := range r.Rhs {
+				if r.Mid != "" && i == r.MidPos {
+					sb.WriteString(o.Sep + r.Mid)
+				}
 				sb.WriteString(o.Sep + sym)
 			}
 			if r.Prec != "" {
@@ -977,6 +983,15 @@ func Fixed() []*Spec {
 			Toks:  toks,
 			Rules: rules("s: A n B C D E F G H I J m", "m: Y", "k: K1 | K2 | K3 | K4 | K5 | K6 | K7 | K8 | K9", "n: X k")})
 	}
+	// a mid-rule action (an action body between two right-hand-side symbols)
+	{
+		sp := &Spec{Name: "midrule_action", Tags: []string{"lalr1", "go-only-actions"},
+			Toks:  []Tok{named("A", 480), named("B", 481)},
+			Rules: rules("S: A B | B"),
+			NTTag: allVal("S")}
+		sp.Rules[0].Mid, sp.Rules[0].MidPos = "{ verifMidRule() }", 1
+		add(sp)
+	}
 	// names that differ only in case; automatic token numbers
 	add(&Spec{Name: "case_names", Tags: []string{"lalr1"},
 		Toks:  []Tok{named("NUM", 0), named("List", 0), lit(',')},
@@ -1344,7 +1359,10 @@ func (s *Spec) Pieces() (pieces, seps []string) {
 				add("|", " ")
 			}
 			first = false
-			for _, sym := range r.Rhs {
+			for i, sym := range r.Rhs {
+				if r.Mid != "" && i == r.MidPos {
+					add(r.Mid, " ")
+				}
 				add(sym, " ")
 			}
 			if r.Prec != "" {
